@@ -57,6 +57,9 @@ func (c *containerServer) handleExecve(cmd *execCmd, msg unixsocket.Msg) error {
 		cmd.Argv[0] = exePath
 	}
 
+	// acked records that the host acknowledged the sync: from then on it is waiting for
+	// the result and answers it with a kill command that belongs to this execve
+	acked := false
 	syncPid := func(pid int) error {
 		msg := unixsocket.Msg{
 			Cred: &syscall.Ucred{
@@ -75,6 +78,7 @@ func (c *containerServer) handleExecve(cmd *execCmd, msg unixsocket.Msg) error {
 		if cmd.Cmd == cmdKill {
 			return fmt.Errorf("sync func: received kill")
 		}
+		acked = true
 		return nil
 	}
 	var syncFunc func(pid int) error
@@ -119,7 +123,17 @@ func (c *containerServer) handleExecve(cmd *execCmd, msg unixsocket.Msg) error {
 		if len(cmd.Argv) > 0 {
 			s = cmd.Argv[0]
 		}
-		return c.sendErrorReply("start: %s: %v", s, err)
+		if err := c.sendErrorReply("start: %s: %v", s, err); err != nil {
+			return err
+		}
+		// exec failed after the host was acknowledged (e.g. ENOEXEC): consume the kill
+		// the host sends in reply to the result, otherwise serve would read it as a command
+		if acked && !cmd.SyncAfter {
+			if _, _, err := c.recvCmd(); err != nil {
+				return err
+			}
+		}
+		return nil
 	}
 	if cmd.SyncAfter {
 		if err := syncPid(1); err != nil {
